@@ -233,6 +233,8 @@ func run(c *hlib.Ctx) {
 	runSingle(c, n/3+1)
 	runMono(c, n/3+1)
 	runVType(c, n/4+1)
+	runSplits(c, n/3+1)
+	runEarSeq(c, n/2+1)
 	runFace(c, n/3+1)
 	runProfile(c, n/6+1)
 }
@@ -577,6 +579,79 @@ func runVType(c *hlib.Ctx, n int) {
 		})
 		c.Stat("vtype.cases", 1)
 		c.Emit("c14 vtype "+r.header(), impl)
+	}
+}
+
+// runSplits: the sweep's diagonals (triangulateMonotoneSplits) against the model sweepSplits.
+// Validates the faithful model of the helper bookkeeping; not a property verdict by itself.
+func runSplits(c *hlib.Ctx, n int) {
+	for i := 0; i < n; i++ {
+		var r *region
+		for {
+			r = genRegion(c, 1+c.Rng.Intn(4))
+			outer := 0
+			for _, l := range r.loops {
+				if area2(l) < 0 {
+					outer++
+				}
+			}
+			// triangulateMonotoneDecomp's contract: one polygon with one depth of holes
+			depthOK := true
+			for _, l := range r.loops {
+				if area2(l) < 0 && outer > 1 {
+					depthOK = false
+				}
+			}
+			if outer == 1 && depthOK {
+				break
+			}
+		}
+		r = shearDistinct(r)
+		if r == nil {
+			continue
+		}
+		segs := r.segs()
+		ids := r.ids()
+		impl := guarded(func() string {
+			sp := model2d.VerifMonotoneSplits(segs)
+			var sb strings.Builder
+			fmt.Fprintf(&sb, "S %d", len(sp))
+			for _, s := range sp {
+				fmt.Fprintf(&sb, " %d %d", ids[s[0]], ids[s[1]])
+			}
+			return sb.String()
+		})
+		if strings.HasPrefix(impl, "panic") {
+			impl = "panic"
+		}
+		c.Stat("splits.cases", 1)
+		c.EmitSite("c14 splits "+r.header(), impl, "corr:c14 splits (model validation)")
+	}
+}
+
+// runEarSeq: the exact sequence of triangles of Triangulate against the exact model
+// M3d.Tri.triangulate (same ear choice).  Validates the faithful model.
+func runEarSeq(c *hlib.Ctx, n int) {
+	for i := 0; i < n; i++ {
+		p, _ := genPoly(c, 10)
+		if c.Rng.Intn(2) == 0 {
+			p = reversed(p)
+		}
+		p = rotated(p, c.Rng.Intn(len(p)))
+		r := &region{den: randDen(c), loops: [][]ipt{p}}
+		poly := make([]model2d.Coord, len(p))
+		for j, v := range p {
+			poly[j] = r.coord(v)
+		}
+		res := call2d(r, func() [][3]model2d.Coord { return model2d.Triangulate(poly) })
+		impl := "panic"
+		if res.fail == "" {
+			impl = trisField(res.tris)
+		} else if res.fail == "timeout" {
+			impl = "timeout"
+		}
+		c.Stat("earseq.cases", 1)
+		c.EmitSite("c14 earseq "+r.header(), impl, "corr:c14 earseq (model validation)")
 	}
 }
 
